@@ -12,7 +12,7 @@ CONSTANTS
   MAXWC = 32767
   MaxRoots = 2
   MaxWRoots = 0
-  MaxOps = 6
+  MaxOps = 5
   MaxFaults = 0
   MaxTraceK = 0
   BUG_STALE_TC = FALSE
